@@ -172,6 +172,9 @@ def run_content(rep, prog, fns, Lb, ctag):
             if sem is None:
                 m = dec.decide(f'{ctag}:path{npaths}:structure-fallback', s2, z3.BoolVal(True))
                 report(rep, {k: model_bytes(m, v[1]) for k, v in vals.items()}, 'the buffer is not assembled from the prescribed literals and one run of text per value', fallback=True)
+                if rep.violations == [] and sum('structural argument of this check does not apply' in w for w in rep.inconclusive) >= 6:
+                    # six samples replayed fine natively and nothing more can be decided about this shape of implementation: stop exploring
+                    raise Inconclusive('C07: the URI is assembled in a way this check has no structural argument for (6 native samples are fine)')
             else:
                 for nm, kind, run in sem:
                     bad = z3.Or(z3.Not(run_ok(run, kind)), z3.Not(bstr_eq(percent_decode(run), vals[nm][1])))
